@@ -117,7 +117,22 @@ def run(ctx) -> None:
     inner_ok = all(("tag_message" in a) or ("remote" in a) or (".name == 'git'" in a) or a == "cfg.is_new_pattern" for a in local)
     ctx.check("R2", inner_ok, f"only step-internal choices besides the specification atoms: {local}",
               "cli._update: a VCS step depends on a condition outside the specification", f"extra atoms: {local}", loc="src/bumpver/vcs.py")
-    env = (~V | C) & (~DP | D)
+    # environment facts, each verified before it is assumed: (1) a VCS handle exists only when cfg.commit is set (every
+    # non-None assignment of the handle in _update happens under cfg.commit); (2) dirty pattern files are dirty files
+    rfn = prog.function(root)
+    rcfg = cfgs.get(root)
+    rpc = PathCond(rcfg)
+    v_assigns = [n for n in rcfg.nodes if n.kind == "stmt" and isinstance(n.ast, (ast.Assign, ast.AnnAssign)) and n.id in rcfg.reachable()
+                 and any(unparse(t) == "vcs_api" for t in (n.ast.targets if isinstance(n.ast, ast.Assign) else [n.ast.target]))
+                 and n.ast.value is not None and not (isinstance(n.ast.value, ast.Constant) and n.ast.value.value is None)]
+    ctx.require(v_assigns, "cli._update: no assignment of the VCS handle found")
+    v_implies_c = all("cfg.commit" in rpc.reach(n.id).atoms and rpc.reach(n.id).implies(BF.var("cfg.commit")) for n in v_assigns)
+    if v_implies_c:
+        ctx.ok("R2", "cli._update: the VCS handle is looked up only under cfg.commit (so 'VCS found' implies commit)")
+        env = (~V | C) & (~DP | D)
+    else:
+        ctx.observe("cli._update: the VCS handle is looked up without cfg.commit; every step's own condition must then mention cfg.commit")
+        env = (~DP | D)
     abort = C & V & ((D & ~A) | DP)
     base = C & V & ~abort
     pre_ok = ~PRE | OK1
